@@ -251,8 +251,30 @@ class OptCachedWalker(CachedWalkMapper):
         return (type(expr), expr)
 
 
+class OptCachedTwice(CachedIdentityMapper):
+    """cached, argument-free; handlers that map the RESULT of a mapped operand again (a rec call
+    in the argument of a rec call, in one expression), on one and on two lines"""
+
+    def map_variable(self, expr):
+        return p.Variable(expr.name + "_r")
+
+    def map_power(self, expr):
+        return p.Power(self.rec(self.rec(expr.base)), self.rec(expr.exponent))
+
+    def map_quotient(self, expr):
+        inner = self.rec(expr.numerator)
+        return p.Quotient(self.rec(inner), self.rec(self.rec(self.rec(expr.denominator))))
+
+    def map_call(self, expr):
+        return p.Call(expr.function, tuple(self.rec(self.rec(par)) for par in expr.parameters))
+
+    def get_cache_key(self, expr):      # (as OptCachedRenamer: the inherited one reads *args)
+        return (type(expr), expr)
+
+
 OPT_SUBJECTS = {c.__name__: c for c in (OptPlainRenamer, OptCachedRenamer, OptArgRenamer,
-                                        OptArgPlain, OptCachedCounter, OptCachedWalker)}
+                                        OptArgPlain, OptCachedCounter, OptCachedWalker,
+                                        OptCachedTwice)}
 
 # }}}
 
